@@ -92,22 +92,39 @@ def run(ctx):
 
     # ------------------------------------------------------------------ R4
     ctx.rule("R4", "generalized (two-component) orbitals are rejected before any conversion", "generalized orbitals reach a writer or converter that treats them as spin blocks")
-    d = pa.posparams[0]
-    tests = {src_of(st.test).replace('"', "'"): st for st in walk_stmts(pa.body) if isinstance(st, ast.If)}
-    cfg = cfg_of(pa)
-    gen = tests.get(f"{d}.mo.kind == 'generalized'")
-    ccall = [c for c in pa.calls if cu in c.callees]
-    if gen is not None and isinstance(gen.body[-1], ast.Raise) and ccall:
-        stc = ccall[0].node
-        pm = prog.parents(pa)
-        while not isinstance(stc, ast.stmt):
-            stc = pm[id(stc)]
-        if cfg.dominates(gen, stc):
-            ctx.ok("R4", "prepare_unrestricted_aminusb rejects generalized orbitals before converting", f"{pa.module.relpath}:{gen.lineno}")
-        else:
-            ctx.violate("R4", "the generalized-orbitals guard does not dominate the conversion", pa, gen)
+    # decided by evaluation: model objects with generalized orbitals (with and without occs_aminusb, conversion allowed
+    # or not); convert_to_unrestricted is replaced by a recorder: the call must end in an exception before it is reached
+    import numpy as np
+
+    from ..accessors import AccessorEval, Raised, Rec
+    from ..symarr import NotSymbolic
+
+    iocls = prog.cls("iodata.iodata.IOData")
+    bad = None
+    for has_amb in (False, True):
+        for allow in (False, True):
+            reached = []
+            f0 = {n_: None for n_ in mo_cls.fields}
+            f0.update(kind="generalized", norba=None, norbb=None, occs=np.array([1.0, 0.0]), coeffs=np.zeros((4, 2)), occs_aminusb=np.array([1.0, 0.0]) if has_amb else None)
+            d0 = {n_: None for n_ in iocls.fields}
+            d0.update(mo=Rec(mo_cls, **f0))
+            ev = AccessorEval(prog, iocls, limit=4000)
+            ev.module = pa.module
+            ev.stubs = {cu.qualname: lambda a_, k_, reached=reached: reached.append(1) or a_[0]}
+            ev.ext_stubs = {"warnings.warn": lambda a_, k_: None}
+            label = f"generalized orbitals {'with' if has_amb else 'without'} occs_aminusb, allow_changes={allow}"
+            try:
+                ev.run_free(pa, [Rec(iocls, **d0), allow, "FILE", "FMT"], {})
+                bad = bad or f"{label}: accepted" + (" and converted as if they were spin blocks" if reached else "")
+            except Raised as exc:
+                if reached:
+                    bad = bad or f"{label}: the conversion is reached before {exc.args[0]} is raised"
+            except NotSymbolic as exc:
+                raise AnalysisError(f"prepare_unrestricted_aminusb is outside the evaluation whitelist: {exc}") from exc
+    if bad:
+        ctx.violate("R4", f"prepare_unrestricted_aminusb has no guard rejecting generalized orbitals ({bad})", pa, pa.node, construct="generalized guard")
     else:
-        ctx.violate("R4", "prepare_unrestricted_aminusb has no guard rejecting generalized orbitals", pa, pa.node, construct="generalized guard")
+        ctx.ok("R4", "prepare_unrestricted_aminusb rejects generalized orbitals before converting (4 model objects evaluated)", f"{pa.module.relpath}:{pa.lineno}")
     ncallers = 0
     for short in prog.format_modules():
         g = prog.format_op(short, "prepare_dump")
